@@ -44,13 +44,18 @@ func main() {
 	}
 }
 
+var missingFns []string
+
 // genFuncs builds obligations for the given function keys.
 func genFuncs(w *World, keys []string) ([]*Gen, error) {
 	var gens []*Gen
 	for _, k := range keys {
 		fn := w.findFn(k)
 		if fn == nil {
-			return nil, fmt.Errorf("function %s not found in the loaded packages", k)
+			// the function was renamed or removed: its own contract cannot be checked; callers that
+			// relied on it now call an uncontracted function and fail their obligations by name
+			missingFns = append(missingFns, k)
+			continue
 		}
 		ct := w.ss.Contracts[k]
 		g := &Gen{m: w.m, prog: w.prog, fn: fn, c: ct, key: k, world: w, noDecl: map[string]bool{}}
